@@ -292,19 +292,49 @@ fn now_ms() -> u64 {
     ts.tv_sec as u64 * 1000 + ts.tv_nsec as u64 / 1_000_000
 }
 
+static MAIN_TID: std::sync::atomic::AtomicI64 = std::sync::atomic::AtomicI64::new(0);
+
+/// scheduler state of a thread of this process: 'R' running or runnable, 'S' / 'D' asleep (blocked in a wait, a sleep or I/O)
+pub fn thread_state(tid: i64) -> char {
+    std::fs::read_to_string(format!("/proc/self/task/{tid}/stat")).ok().and_then(|s| s.rsplit(')').next().and_then(|r| r.trim().chars().next())).unwrap_or('?')
+}
+
+/// Per-case budgets. CPU: process CPU time of the case (load independent). Stall: the time the main thread spent *asleep*
+/// (state S / D sampled every 25 ms) during the case - a thread that is merely descheduled on a loaded machine is runnable, not
+/// asleep, so the verdict does not depend on the load. A plain wall-clock limit of 30 x the stall budget (at least 15 minutes)
+/// remains as a backstop.
 fn start_watchdog(budget_ms: u64, wall_ms: u64) {
+    MAIN_TID.store(unsafe { libc::gettid() } as i64, SeqCst);
     std::thread::Builder::new()
         .name("watchdog".into())
-        .spawn(move || loop {
-            std::thread::sleep(std::time::Duration::from_millis(25));
-            if RUNNING.load(SeqCst) == 1 {
-                let cpu = process_cpu_ns().saturating_sub(CASE_CPU_START_NS.load(SeqCst)) / 1_000_000;
-                if RUNNING.load(SeqCst) == 1 && cpu > budget_ms {
-                    die(EXIT_CPU);
-                }
-                let wall = now_ms().saturating_sub(CASE_WALL_START_MS.load(SeqCst));
-                if RUNNING.load(SeqCst) == 1 && wall > wall_ms {
-                    die(EXIT_STALL);
+        .spawn(move || {
+            let mut asleep_ms = 0u64;
+            let mut case_start = 0u64;
+            let mut last = now_ms();
+            loop {
+                std::thread::sleep(std::time::Duration::from_millis(25));
+                let now = now_ms();
+                let dt = now.saturating_sub(last);
+                last = now;
+                if RUNNING.load(SeqCst) == 1 {
+                    let start = CASE_WALL_START_MS.load(SeqCst);
+                    if start != case_start {
+                        case_start = start;
+                        asleep_ms = 0;
+                    }
+                    let cpu = process_cpu_ns().saturating_sub(CASE_CPU_START_NS.load(SeqCst)) / 1_000_000;
+                    if RUNNING.load(SeqCst) == 1 && cpu > budget_ms {
+                        die(EXIT_CPU);
+                    }
+                    if matches!(thread_state(MAIN_TID.load(SeqCst)), 'S' | 'D') {
+                        asleep_ms += dt;
+                    }
+                    let wall = now.saturating_sub(start);
+                    if RUNNING.load(SeqCst) == 1 && (asleep_ms > wall_ms || wall > (wall_ms * 30).max(900_000)) {
+                        die(EXIT_STALL);
+                    }
+                } else {
+                    asleep_ms = 0;
                 }
             }
         })
